@@ -366,6 +366,28 @@ theorem keysafe_locator_unknown (c : Crypto) (fuel : Nat) (s : Bytes)
   unfold parseLocator
   simp only [if_neg h1, if_neg h2, if_neg h3]
 
+/-- `[f(m) for m in ms]` over `Except`: the comprehension yields a value only if every element does -/
+theorem mapM_ok_mem {α β : Type} (f : α → Except VErr β) :
+    ∀ (ms : List α) (ls : List β), ms.mapM f = .ok ls → ∀ m ∈ ms, ∃ l, f m = .ok l
+  | [], _, _, m, hm => by cases hm
+  | a :: as, ls, h, m, hm => by
+    rw [List.mapM_cons] at h
+    obtain ⟨b, hb, h⟩ := bind_ok h
+    obtain ⟨bs, hbs, _⟩ := bind_ok h
+    rcases List.mem_cons.mp hm with rfl | hm'
+    · exact ⟨b, hb⟩
+    · exact mapM_ok_mem f as bs hbs m hm'
+
+/-- the `list` branch of `_parse_key_locator`: a list parses only if EVERY member parses (no member is skipped) -/
+theorem keysafe_list_members_ok (c : Crypto) (fuel : Nat) (s : Bytes) (l : Loc)
+    (hi : (partition sepLoc s).1 = identList) (h : parseLocator c (fuel + 1) s = .ok l) :
+    ∃ ms, splitList (partition sepLoc s).2 = .ok ms ∧ ∀ m ∈ ms, ∃ lm, parseLocator c fuel m = .ok lm := by
+  unfold parseLocator at h
+  simp only [if_pos hi] at h
+  obtain ⟨ms, hms, h⟩ := bind_ok h
+  obtain ⟨ls, hls, _⟩ := bind_ok h
+  exact ⟨ms, hms, mapM_ok_mem _ ms ls hls⟩
+
 theorem ident_distinct : identList ≠ identPair ∧ identList ≠ identPhrase ∧ identPair ≠ identPhrase := by decide
 
 /-- `KeySafe.from_text`: the `vmware:key` identifier and a top-level `list` locator -/
